@@ -12,6 +12,8 @@ use serde_json::{json, Value};
 use std::collections::HashMap;
 
 pub struct GroupOut {
+    /// an imported key was refused by the decoder: the behaviour does not apply
+    pub refused: bool,
     pub steps: usize,
     pub values: usize,
     pub violation: Option<Value>,
@@ -29,9 +31,10 @@ pub fn run_behaviour(suite: &dyn Suite, seed: u64, line: &Value) -> GroupOut {
     let nsk = suite.lens().nsk;
     let mut keys: HashMap<i64, Vec<u8>> = HashMap::new();
     let mut intern = Intern::default();
-    let mut out = GroupOut { steps: 0, values: 0, violation: None };
+    let mut out = GroupOut { refused: false, steps: 0, values: 0, violation: None };
     let mut krand: HashMap<(i64, String), Vec<u8>> = HashMap::new();
     let mut seedbytes: HashMap<(i64, String), Vec<u8>> = HashMap::new();
+    let mut kimp: HashMap<(i64, String), Vec<u8>> = HashMap::new();
     for (n, e) in events.iter().enumerate() {
         out.steps += 1;
         let k = e["k"].as_i64().unwrap_or(0);
@@ -55,6 +58,30 @@ pub fn run_behaviour(suite: &dyn Suite, seed: u64, line: &Value) -> GroupOut {
                             let b = suite.ke_random_sk(&mut TapeRng::new(seed, tape));
                             krand.insert((tape, "krand".to_string()), b.clone());
                             b
+                        }
+                        "import-raw" | "import-adj" => {
+                            let mut b = vec![0u8; nsk];
+                            TapeRng::new(seed, tape).fill_bytes(&mut b);
+                            if cls == "import-adj" {
+                                // into the range of the group (big-endian NIST scalars, little-endian ristretto
+                                // scalars below the order, clamped Curve25519 scalars)
+                                match suite.ke() {
+                                    "Curve25519" => { b[0] &= 248; b[31] &= 127; b[31] |= 64; }
+                                    "ristretto255" => b[31] &= 0x0f,
+                                    "P-521" => { b[0] = 0; b[1] &= 0x7f; }
+                                    _ => b[0] &= 0x7f,
+                                }
+                            }
+                            match suite.ke_sk_roundtrip(&b, Codec::Native) {
+                                Err(_) => return Err("import refused".into()),
+                                Ok(sk) => {
+                                    if sk != b {
+                                        return Err(format!("imported private key {} is held / re-encoded as {}", hex::encode(&b), hex::encode(&sk)));
+                                    }
+                                    kimp.insert((tape, "kimp".to_string()), b.clone());
+                                    b
+                                }
+                            }
                         }
                         c => return Err(format!("class {c}")),
                     };
@@ -84,6 +111,10 @@ pub fn run_behaviour(suite: &dyn Suite, seed: u64, line: &Value) -> GroupOut {
         .unwrap_or_else(|_| Err("panic".into()));
         let outs = match r {
             Ok(o) => o,
+            Err(m) if m == "import refused" => {
+                out.refused = true;
+                return out;
+            }
             Err(m) => {
                 out.violation = fail(suite, n, e, "error", format!("{}: key-pair API returned an error / panicked: {}", e["ev"], m));
                 return out;
@@ -109,6 +140,7 @@ pub fn run_behaviour(suite: &dyn Suite, seed: u64, line: &Value) -> GroupOut {
     };
     ev.rnd.extend(krand.into_iter());
     ev.rnd.extend(seedbytes.into_iter());
+    ev.rnd.extend(kimp.into_iter());
     for (i, t) in terms.iter().enumerate() {
         let Some(obs) = intern.get(i + 1) else { break };
         out.values += 1;
